@@ -474,6 +474,20 @@ func init() {
 					}
 				}
 			}
+			// sizes beyond what the interpreter starts with: many variables in one scope (as bindings, destructuring, definitions,
+			// labels), deep nesting, long pipes — its tables have to grow, not overflow
+			for _, n := range []int{20, 33, 40, 65, 70, 130, 150, 300} {
+				vars, refs, pat := "", "", ""
+				for i := 0; i < n; i++ {
+					vars += fmt.Sprintf("%d as $v%d | ", i, i)
+					refs += fmt.Sprintf("$v%d, ", i)
+					pat += fmt.Sprintf("$p%d, ", i)
+				}
+				for _, src := range append(c01Scale(n), vars+"["+refs+"0] | length", ". as ["+pat+"$last] | [$p0, $last]", vars+"def f: ["+refs+"1]; f | add", "[range("+fmt.Sprint(n)+")] as ["+pat+"$last] | $p"+fmt.Sprint(n-1),
+					"{a: 1} as {a: $x} | "+vars+"$x + $v"+fmt.Sprint(n-1), vars+"reduce range(3) as $i (0; . + $v"+fmt.Sprint(n-1)+")", "def g: "+vars+"$v0 + $v"+fmt.Sprint(n-1)+"; [g, g]") {
+					kC08Lib.Do(c, c08Lib{SrcHex: hex.EncodeToString([]byte(src)), Input: run.TV{V: nil}, Var: run.TV{V: nil}})
+				}
+			}
 			// the same failing operation more than once in one run (what a Code keeps from the first failure meets the second)
 			for _, src := range c08Twice {
 				for _, w := range []string{"(\"a\", \"b\", \"a\") | %s", "[(\"a\", \"b\") | %s]", "\"a\" | (%s), (%s)", "[limit(3; repeat(\"a\" | %s))]", "reduce (1, 2, 3) as $i (\"a\"; (%s) | tostring)"} {
